@@ -471,6 +471,14 @@ def check_run(proj: dict, inv: dict, evs: T.Sequence[dict], testlog: T.Optional[
                 continue
             cnt('cov:result_' + res)
             cnt('cov:class_' + rc_class(t, it))
+            # how the limit was declared (0 and negative mean "no limit") x multiplier given or not
+            to = t['timeout']
+            kind = 'default' if to is None else 'zero' if to == 0 else 'negative' if to < 0 else 'positive'
+            cnt('cov:timeout_kw_' + kind + ('_with_multiplier' if inv.get('tmult') is not None else ''))
+            if to is not None and to <= 0 and res in ('FAIL', 'ERROR', 'EXPECTEDFAIL', 'UNEXPECTEDPASS', 'SKIP'):
+                cnt('cov:nolimit_test_non_OK_classification')
+            if t['suites']:
+                cnt('cov:classified_tests_in_suites')
             if res not in exp:
                 V.append((f'misclassified:{rc_class(t, it)}:expected-{"|".join(sorted(exp))}:got-{res}',
                           {'test': tid, 'iteration': it, 'spec': t, 'result': res, 'returncode': e.get('returncode')}))
